@@ -542,7 +542,7 @@ func (d *driver) sendMsg(m *Msg) {
 	switch m.T {
 	case "subscribed":
 		if m.Req.Op != nil {
-			if op, ok := d.ops[*m.Req.Op]; ok && op.label.Op == "subscribe" {
+			if op, ok := d.ops[*m.Req.Op]; ok && (op.label.Op == "subscribe" || op.label.Op == "subscribechan") {
 				d.lastSub[op.label.Name] = m.Sub
 			}
 		}
@@ -740,6 +740,28 @@ func (d *driver) execOp(op *opState) Obs {
 	switch l.Op {
 	case "subscribe":
 		err = d.c.Subscribe(topicName(l.Name), d.eventHandler(l.O), d.userOpts(l))
+		if err == nil {
+			id, ok := d.c.SubscriptionID(topicName(l.Name))
+			if ok {
+				ret.Sub = int64(id)
+			}
+		}
+	case "subscribechan":
+		// events are taken from an unbuffered channel by a reader that needs a
+		// moment for each one (it yields the processor between two reads)
+		events := make(chan *wamp.Event)
+		h := d.eventHandler(l.O)
+		go func() {
+			for {
+				select {
+				case ev := <-events:
+					h(ev)
+				case <-d.doneCh:
+					return
+				}
+			}
+		}()
+		err = d.c.SubscribeChan(topicName(l.Name), events, d.userOpts(l))
 		if err == nil {
 			id, ok := d.c.SubscriptionID(topicName(l.Name))
 			if ok {
